@@ -194,6 +194,10 @@ func (p *Plugin) ValidateObservation(
 		return fmt.Errorf("validate observer reading eligibility: %w", err)
 	}
 
+	if err := validateObserverDataEligibility(supportedChains, p.destChain, decodedObservation); err != nil {
+		return fmt.Errorf("validate observer data eligibility: %w", err)
+	}
+
 	if err := validateObservedSequenceNumbers(decodedObservation.CommitReports); err != nil {
 		return fmt.Errorf("validate observed sequence numbers: %w", err)
 	}
